@@ -29,8 +29,16 @@ func TestVerif(t *testing.T) {
 	vrep.Main(t, "github.com/google/licenseclassifier/v2", vRegistry)
 }
 
-const vAssets = "/repo/v2/assets"
-const vScenarios = "/repo/v2/scenarios"
+// vRepo is the tree under test: /repo, or the scratch copy a developer run points VERIF_REPO at.
+func vRepo() string {
+	if r := os.Getenv("VERIF_REPO"); r != "" {
+		return r
+	}
+	return "/repo"
+}
+
+var vAssets = vRepo() + "/v2/assets"
+var vScenarios = vRepo() + "/v2/scenarios"
 
 // vDoc is one file of the embedded corpus.
 type vDoc struct {
